@@ -105,3 +105,75 @@ impl<S: std::hash::BuildHasher + Default + Clone + Send + Sync + 'static>
         matches!(&*(self.0).0.read(), TieredStorage::Large(_))
     }
 }
+
+/// One recorded dependency of a node, in recorded order.
+#[derive(Debug, Clone, PartialEq, Eq)]
+pub enum DumpDependency {
+    Single(QueryID),
+    Unordered(Vec<QueryID>),
+}
+
+/// What a node recorded about one of its callees at its last run / clean.
+#[derive(Debug, Clone, Copy, PartialEq, Eq)]
+pub struct DumpObservation {
+    pub callee: QueryID,
+    pub seen_value_fingerprint: u128,
+    pub seen_transitive_firewall_callees_fingerprint: u128,
+}
+
+/// Read-only copy of the persistent bookkeeping of one node; `None` fields
+/// are columns without an entry for the node. Set-valued fields are in the
+/// iteration order of the underlying container (sort before comparing).
+#[derive(Debug, Clone, PartialEq, Eq)]
+pub struct NodeDump {
+    /// `Some(None)` = input, `Some(Some(style))` = executable.
+    pub kind: Option<Option<crate::query::ExecutionStyle>>,
+    pub last_verified: Option<u64>,
+    pub value_fingerprint: Option<u128>,
+    pub transitive_firewall_callees_fingerprint: Option<u128>,
+    pub transitive_firewall_callees: Option<Vec<QueryID>>,
+    pub forward_edges: Option<Vec<DumpDependency>>,
+    pub observations: Option<Vec<DumpObservation>>,
+    /// `Some(timestamp)` while a backward projection is pending.
+    pub pending_backward_projection: Option<u64>,
+    /// The callees (of `forward_edges`) whose edge is in the dirty set.
+    pub dirty_forward_edges: Vec<QueryID>,
+    /// The callers recorded for this node.
+    pub backward_edges: Vec<QueryID>,
+}
+
+/// The engine's current timestamp (epoch).
+#[must_use]
+pub fn current_timestamp<C: crate::config::Config>(
+    engine: &Arc<crate::Engine<C>>,
+) -> u64 {
+    engine.verif_current_timestamp()
+}
+
+/// Dumps the persistent bookkeeping of the node `id`, or `None` if no column
+/// has an entry for it. Reads only: no query lock, no computing lock, no write
+/// transaction. Call it while no query and no input session is in flight.
+pub async fn dump_node<C: crate::config::Config>(
+    engine: &Arc<crate::Engine<C>>,
+    id: &QueryID,
+) -> Option<NodeDump> {
+    engine.verif_dump_node(id).await
+}
+
+/// Whether the edge `from -> to` is in the dirty-edge set, whether or not it is
+/// (still) a recorded forward edge of `from`.
+pub async fn is_edge_dirty<C: crate::config::Config>(
+    engine: &Arc<crate::Engine<C>>,
+    from: &QueryID,
+    to: &QueryID,
+) -> bool {
+    engine.verif_is_edge_dirty(from, to).await
+}
+
+/// The value stored for the query `id` (which must be of type `Q`).
+pub async fn stored_value<C: crate::config::Config, Q: crate::Query>(
+    engine: &Arc<crate::Engine<C>>,
+    id: &QueryID,
+) -> Option<Q::Value> {
+    engine.verif_query_result::<Q>(id).await
+}
